@@ -188,7 +188,7 @@ package jobcontroller
 //@   params w, rj, tasks
 //@   modifies clock, wakeN, wakeKey, wakeAfter
 //@   ensures result0 != nil && result0.Name == rj.Name && result0.Namespace == rj.Namespace && result0.UID == rj.UID && result0.Spec == rj.Spec
-//@        && result0.Finalizers == rj.Finalizers && result0.DeletionTimestamp == rj.DeletionTimestamp
+//@        && execution.sameStrs(result0.Finalizers, rj.Finalizers) && result0.DeletionTimestamp == rj.DeletionTimestamp
 //@   ensures result1 != nil ==> result0 == rj
 //@   ensures clock >= old(clock)
 
@@ -203,7 +203,7 @@ package jobcontroller
 //@   loop 1 invariant forall k int :: 0 <= k && k < len(tasks) ==> (exists j int :: 0 <= j && j <= rangeindex && tasks[k] == jobtasks.taskCached(rj, rj.Status.Tasks[j].Name) && tasks[k] != nil)
 //@   loop 1 invariant forall j int :: 0 <= j && j <= rangeindex && !gone(rj, j) ==> inTasks(tasks, jobtasks.taskCached(rj, rj.Status.Tasks[j].Name))
 //@   loop 1 invariant len(tasks) == 0 ==> (forall j int :: 0 <= j && j <= rangeindex ==> gone(rj, j))
-//@   loop 2 invariant -1 <= rangeindex && rj != nil && rj.Finalizers == old(rj.Finalizers) && rj.DeletionTimestamp == old(rj.DeletionTimestamp) && rj.Name == old(rj.Name)
+//@   loop 2 invariant -1 <= rangeindex && rj != nil && execution.sameStrs(rj.Finalizers, old(rj.Finalizers)) && rj.DeletionTimestamp == old(rj.DeletionTimestamp) && rj.Name == old(rj.Name)
 //@   ensures [C13] not-deleting-is-a-no-op: !deleting(rj) ==> result0 == rj && result1 == nil && (forall n string :: jobtasks.delReq[n] ==> old(jobtasks.delReq[n]))
 //@   ensures [C13] finalizer-removed-only-when-all-tasks-gone: result0 != nil && meta.contains(rj.Finalizers, F()) && !meta.contains(result0.Finalizers, F()) ==>
 //@        deleting(rj) && (forall k int :: 0 <= k && k < len(rj.Status.Tasks) ==> gone(rj, k))
